@@ -166,7 +166,10 @@ class SoakLoop:
         self.W = W
 
     def inv(self, ex, env):
-        return self.W.sinv(ex, env)
+        out = self.W.sinv(ex, env)
+        if getattr(self.W, 'pre_min', None) is not None:
+            out.append(('C02.sender_monotone: soaking up `new` requests does not move min_send_id', self.W.me.f['min_send_id'] == self.W.pre_min))
+        return out
 
     def havoc(self, ex, env):
         self.W.fresh_state(ex, env)
@@ -202,7 +205,7 @@ class PollRecvContract(Unit):
         ex.assume(W.me.f['min_send_id'] >= W.min0)
         for _, f in W.sinv(ex, env):
             ex.assume(f)
-        pre_min = W.me.f['min_send_id']
+        pre_min = W.pre_min = W.me.f['min_send_id']
         pre_clients = dict(W.me.f['clients'])
         soak = [n for n in ast.walk(extract.load(ZMQ).find('ZMQSender.send.poll_recv')) if isinstance(n, ast.While)]
         ex.loop_specs[ex.loop_key(soak[0])] = SoakLoop(W)
@@ -223,6 +226,7 @@ class PollRecvContract(Unit):
         if r is None:
             O('C02.ffwd: when poll_recv answers None min_send_id was moved above the id being sent', W.me.f['min_send_id'] > env.v['msg_id'])
         else:
+            O('C02.sender_monotone: poll_recv moves min_send_id only when it answers None', W.me.f['min_send_id'] == pre_min)
             for n_, f in W.sinv(ex, env):
                 O('SInv after poll_recv: ' + n_, f)
         return ex
@@ -257,6 +261,7 @@ class SendMaybeContract(Unit):
             return ex
         W.fresh_state(ex, env)
         ex.assume(W.me.f['min_send_id'] >= W.min0)
+        ex.assume(W.me.f['min_send_id'] <= env.v['msg_id'])       # precondition (established by the glue): no newer id has been requested
         for _, f in W.sinv(ex, env):
             ex.assume(f)
         pre_clients = dict(W.me.f['clients'])
@@ -276,7 +281,7 @@ class SendMaybeContract(Unit):
             ex.cover('send_maybe published')
             O('C03.gate: a publish happens only on an open gate (push, or do_send with a tracked client)', gate)
             O('C03.once: send_maybe answers True after publishing', r is True)
-            O('C02.sender_monotone: after the publish min_send_id is msg_id + 1', W.me.f['min_send_id'] == env.v['msg_id'] + 1)
+            O('C02.sender_monotone: after the publish min_send_id is msg_id + 1 (and so not lower than before)', z3.And(W.me.f['min_send_id'] == env.v['msg_id'] + 1, W.me.f['min_send_id'] >= pre_min))
             used = [p for p in W.pubs if any(isinstance(m[0], Obj) and m[0].cls == 'wiretopic' and len(m) > 2 for m in p.f['log'])]
             O('C07.one_branch / all_branches: balanced -> exactly one PUB socket, otherwise all of them', len(used) == (1 if cfg['balance'] else len(W.pubs)))
             for cid, c in pre_clients.items():
@@ -309,38 +314,74 @@ class SendMaybeContract(Unit):
 
 
 class GlueLoop:
-    def __init__(self, W):
-        self.W = W
+    """cut-point contract of the drain / wait loops of send over the closure contracts: nothing has been published yet (a publish ends the loop), min_send_id never below its entry
+    value; the opaque sender state satisfies SInv (entry lemma + contract of poll_recv)"""
+    def __init__(self, W, log):
+        self.W, self.log = W, log
 
     def inv(self, ex, env):
-        return self.W.sinv(ex, env)
+        out = [('C03.once: nothing has been published while the loop runs', 'PUBLISH' not in self.log),
+               ('C02.sender_monotone: min_send_id never below its value at entry', self.W.me.f['min_send_id'] >= self.W.min0)]
+        if env.has('msg_id') and 'ffwd' not in self.log:
+            res = env.lookup('res') if env.has('res') else True
+            # in the drain loop `res` is the last answer of poll_recv: None exactly when a newer id was requested
+            out.append(('C02.sender_monotone: unless a newer id was requested (poll_recv answered None) min_send_id is not above the id being sent',
+                        self.W.me.f['min_send_id'] <= env.lookup('msg_id')))
+        return out
 
     def havoc(self, ex, env):
-        self.W.fresh_state(ex, env)
+        self.W.me.f['min_send_id'] = fresh_int('min_send_in_loop')
         if env.function_frame().v.get('timeout') is not None:
             env.function_frame().v['timeout'] = fresh_int('timeout_left')
         env.assign('res', fresh_bool('res'))
 
     def heap_havocs(self, ex, env):
-        return [(self.W.me, 'clients'), (self.W.me, 'min_send_id')]
+        return [(self.W.me, 'min_send_id')]
 
 
 class SendGlue(Unit):
-    """the real body of send with its closures replaced by their contracts"""
+    """the real body of send with its closures replaced by their contracts.  The client table and the closure cells (do_send, do_hello, outputs) are touched by the closures only
+    -- checked syntactically on the glue statements -- so in the glue they are one opaque state that satisfies SInv from the entry lemma on (SInv holds in the state the real prefix
+    of send leaves, for every client table) and after every poll_recv (its contract)."""
     name = 'ZMQSender.send (entry, drain loop, wait loops, returns) over the contracts of poll_recv / send_maybe'
     targets = (f'{ZMQ}::ZMQSender.send',)
-    required_covers = ('send returned a state', 'send timed out', 'send discarded an old id')
+    required_covers = ('send returned a state', 'send timed out', 'send discarded an old id', 'entry lemma')
     mutants = (
         ('send_maybe called before the drain', f'{ZMQ}::ZMQSender.send', "        while res := poll_recv(0):  # eat up any requests sitting in queues\n            pass\n", "        send_maybe()\n        while res := poll_recv(0):  # eat up any requests sitting in queues\n            pass\n", 'C03.'),
         ('fast-forward ignored after the drain', f'{ZMQ}::ZMQSender.send', "        if res is None:  # someone requested larger message id than currently sending, discard and return\n            return ZMQStateRecv(self.min_send_id)\n", "", 'C02.'),
         ('timeout returns a state', f'{ZMQ}::ZMQSender.send', "                if not (timeout := max(0, t_timeout - time_ns())):\n                    return None", "                if not (timeout := max(0, t_timeout - time_ns())):\n                    return ZMQStateRecv(self.min_send_id)", 'C02.'),
+        ('gate left open from the start', f'{ZMQ}::ZMQSender.send', '        do_send   = False\n', '        do_send   = True\n', 'SInv at entry'),
     )
 
     def shapes(self, tier):
-        return [(c, st, to) for c in CFGS if c['tm'] == 'dict' and c['required'] == () for st in ('given', 'none', 'older') for to in ('none', 'sym')]
+        glue = [('glue', c, st, to) for c in CFGS if c['tm'] == 'dict' and c['required'] == () and c['K'] == 1 for st in ('given', 'none', 'older') for to in ('none', 'sym')]
+        return glue + [('entry', c, 'given', 'none') for c in CFGS if c['tm'] == 'dict' and not c['push']]
+
+    @staticmethod
+    def glue_frame_ok(body):
+        """the glue statements neither assign the closure cells nor touch the client table; they only call poll_recv / send_maybe / time_ns / max / ZMQStateRecv"""
+        cells = {'do_send', 'do_hello', 'outputs', 'clients', 'topicmsgs'}
+        for st in body:
+            for n in ast.walk(st):
+                if isinstance(n, (ast.Assign, ast.AugAssign, ast.AnnAssign)):
+                    for t in (n.targets if isinstance(n, ast.Assign) else [n.target]):
+                        for x in ast.walk(t):
+                            if isinstance(x, ast.Name) and x.id in cells:
+                                return False
+                            if isinstance(x, ast.Attribute) and x.attr in ('clients', 'min_send_id'):
+                                return False
+                if isinstance(n, ast.NamedExpr) and n.target.id in cells:
+                    return False
+                if isinstance(n, ast.Call):
+                    f = ast.unparse(n.func)
+                    if f not in ('poll_recv', 'send_maybe', 'time_ns', 'max', 'ZMQStateRecv'):
+                        return False
+                if isinstance(n, (ast.FunctionDef, ast.Lambda, ast.Delete)):
+                    return False
+        return True
 
     def run(self, shape, dec):
-        cfg, st, to = shape
+        mode, cfg, st, to = shape
         ex, W = setup(cfg, dec)
         timeout = None if to == 'none' else z3.Int('timeout_ms')
         if timeout is not None:
@@ -353,29 +394,43 @@ class SendGlue(Unit):
             ex.assume(st_msg >= W.min0)
         elif st == 'older':
             ex.assume(st_msg < W.min0)
+        if mode == 'entry':
+            # entry lemma: the state the real prefix of send leaves (for every client table of earlier calls) satisfies SInv
+            try:
+                ex.block(body[:i0], env)
+            except Ret:
+                ex.outcome = 'early'
+                return ex
+            ex.outcome = 'entry'
+            ex.cover('entry lemma')
+            for n_, f in W.sinv(ex, env):
+                ex.oblige('SInv at entry of the drain loop: ' + n_, f)
+            return ex
+        defs = [i for i, n in enumerate(body) if isinstance(n, ast.FunctionDef)]
+        if not defs or defs[-1] >= i0:
+            raise Unsupported('contract no longer binds: the closures of ZMQSender.send are not defined before its first loop')
+        i0 = defs[-1] + 1          # the glue = everything after the closure definitions
         log = []
+        ex.oblige('C03.frame: the glue of send (drain / wait loops) touches neither the closure cells nor the client table', self.glue_frame_ok(body[i0:]))
 
         def poll_recv_contract(ex_, t=None):
-            # contract of poll_recv: from SInv to SInv, arbitrary new table; None iff a newer id was requested (then min_send_id > msg_id)
+            # contract of poll_recv (PollRecvContract): from SInv to SInv; None iff a newer id was requested (then min_send_id > msg_id); min_send_id never goes down
             cenv = ex_.glue_env
-            for n_, f in W.sinv(ex_, cenv):
-                ex_.oblige('poll_recv is called in a state satisfying SInv: ' + n_, f)
             log.append('poll_recv')
-            W.fresh_state(ex_, cenv)
+            old = W.me.f['min_send_id']
             k = ex_.choose(3, 'poll_recv_result')
-            ex_.assume(W.me.f['min_send_id'] >= W.min0)
             if k == 0:
-                ex_.assume(W.me.f['min_send_id'] > cenv.lookup('msg_id'))
+                W.me.f['min_send_id'] = fresh_int('min_send_after_poll')
+                ex_.assume(z3.And(W.me.f['min_send_id'] >= old, W.me.f['min_send_id'] > cenv.lookup('msg_id')))
+                log.append('ffwd')
                 return None
-            for _, f in W.sinv(ex_, cenv):
-                ex_.assume(f)
-            return k == 1
+            return k == 1          # min_send_id unchanged
 
         def send_maybe_contract(ex_):
+            # contract of send_maybe (SendMaybeContract): publishes at most once; after a publish min_send_id == msg_id + 1, otherwise unchanged
             cenv = ex_.glue_env
-            for n_, f in W.sinv(ex_, cenv):
-                ex_.oblige('send_maybe is called in a state satisfying SInv: ' + n_, f)
             log.append('send_maybe')
+            ex_.oblige('C02.sender_monotone: send_maybe is only tried while no newer id has been requested (its precondition min_send_id <= msg_id)', W.me.f['min_send_id'] <= cenv.lookup('msg_id'))
             if ex_.decide(z3.Bool(f'send_maybe_publishes#{len(ex_.conds)}')):
                 log.append('PUBLISH')
                 W.me.f['min_send_id'] = cenv.lookup('msg_id') + 1
@@ -389,7 +444,7 @@ class SendGlue(Unit):
             for n in body[i0:]:
                 for w in ast.walk(n):
                     if isinstance(w, ast.While):
-                        ex.loop_specs[ex.loop_key(w)] = GlueLoop(W)
+                        ex.loop_specs[ex.loop_key(w)] = GlueLoop(W, log)
             ex.block(body[i0:], env)
             ret = None
             ex.outcome = 'fell off'
@@ -414,6 +469,8 @@ class SendGlue(Unit):
         else:
             ex.cover('send returned a state')
             O('C02.mq_state: send() answers with the next id that will be accepted (min_send_id)', isinstance(ret, tuple) and ret.msg_id is W.me.f['min_send_id'])
+            O('C03.once: send() answers with a state only after publishing, or when this id was discarded (already passed at entry / a newer id was requested)',
+              'PUBLISH' in log or 'ffwd' in log or st == 'older')
             if 'PUBLISH' in log:
                 O('C02.sender_monotone: after a publish that is msg_id + 1', ret.msg_id == env.lookup('msg_id') + 1 if env.has('msg_id') else False)
             O('C02.sender_monotone: the answer is never below min_send_id at entry', ret.msg_id >= W.min0)
